@@ -119,6 +119,14 @@ def body(case):
         if b.is_valid is not ref["valid"] or b.num_failures != ref["nfail"] or exact(b.cast_data) != exact(ref["cast"]):
             out.add("same-behaviour", "same-behaviour|vs-reference", f"rebuilt valid={b.is_valid} nfail={b.num_failures} cast={show(b.cast_data,120)}; reference {ref['valid']} {ref['nfail']} {show(ref['cast'],120)}")
             return out
+    # equality must not depend on the two schemas having been used
+    try:
+        if not (S2 == S and S == S2):
+            out.add("rebuilt-equal", "rebuilt-equal|schema-after-validation", "the rebuilt schema equals the original before both validate documents, but not after")
+            return out
+    except Exception as e:
+        out.exc("equality", e)
+        return out
     # single rules
     for rl in schema.rules:
         try:
